@@ -207,6 +207,16 @@ Members(X, o) == IdleOf(X, o) \cup {X.procs[p].m : p \in {q \in LivePids(X, "TP"
 Tr_C09_fixed(A, B) ==
     cfg.alg = "batch" =>
       \A o \in DOMAIN A.cl.idle \cap DOMAIN B.cl.idle : Members(B, o) \subseteq Members(A, o)
+(* ... and it goes back promptly: a reservation does not outlive the last   *)
+(* task of its workflow by more than the allocation loop's two rounds       *)
+(* (one to see the task finished, one to hand the machines back)            *)
+Inv_C09_prompt(X) ==
+    cfg.alg = "batch" =>
+      \A o \in DOMAIN X.cl.idle :
+         LET ts == {<<o, k>> : k \in Nodes(o)}
+         IN (X.obs[o].planned /\ ts \subseteq DOMAIN X.tasks
+             /\ \A t \in ts : X.tasks[t].status = "FINISHED" /\ X.tasks[t].aft # NoneT)
+            => X.now <= SetMax({X.tasks[t].aft : t \in ts}) + 2 * K
 Tr_C09_released(A, B) ==
     \A o \in A.sch.queue \ B.sch.queue : o \notin DOMAIN B.cl.idle
 
@@ -354,7 +364,7 @@ End_C13_times(log, X) ==
 
 (* ------------------------ bundles used by the checks --------------------- *)
 InvNames == <<"C01.exec", "C01.claim", "C01.pool", "C02.partition", "C02.counts", "C02.numprov",
-              "C07.bounds", "C07.conserved", "C08.limits", "C08.arrays", "C09.count", "C09.counter", "C15.reported">>
+              "C07.bounds", "C07.conserved", "C08.limits", "C08.arrays", "C09.count", "C09.counter", "C09.prompt", "C15.reported">>
 InvHolds(X, n) ==
     CASE n = "C01.exec" -> Inv_C01_exec(X) [] n = "C01.claim" -> Inv_C01_claim(X)
       [] n = "C01.pool" -> Inv_C01_pool(X)
@@ -364,6 +374,7 @@ InvHolds(X, n) ==
       [] n = "C08.limits" -> Inv_C08_limits(X) [] n = "C08.arrays" -> Inv_C08_arrays(X)
       [] n = "C09.count" -> Inv_C09_count(X)
       [] n = "C09.counter" -> Inv_C09_counter(X)
+      [] n = "C09.prompt" -> Inv_C09_prompt(X)
       [] n = "C15.reported" -> Inv_C15_reported(X)
 TrNames == <<"C01.noreclaim", "C02.boundary", "C03.precedence", "C03.exact", "C04.once",
              "C06.runtime", "C07.deposit", "C07.release", "C08.begin", "C08.status",
